@@ -19,7 +19,15 @@ char *__ckd_salloc__(const char *orig, const char *file, int line)
 { (void)file; (void)line; size_t n = strlen(orig) + 1; char *p = malloc(n); memcpy(p, orig, n); return p; }
 void ckd_free(void *ptr) { free(ptr); }
 #endif
-#ifndef SSW_NO_ERR_STUBS
+#if defined(SSW_ERR_CONTRACT)
+/* loop-contract groups: goto-instrument cannot inline a variadic body, so logging is replaced by a trivial contract */
+void err_msg(err_lvl_t lvl, const char *path, long ln, const char *fmt, ...)
+__CPROVER_requires(1) __CPROVER_assigns() __CPROVER_ensures(1);
+void err_msg_system(err_lvl_t lvl, const char *path, long ln, const char *fmt, ...)
+__CPROVER_requires(1) __CPROVER_assigns() __CPROVER_ensures(1);
+/* keeps both symbols in the goto model so that --replace-call-with-contract finds them (never called) */
+void ssw_err_refs(void) { err_msg(ERR_INFO, "", 0, ""); err_msg_system(ERR_INFO, "", 0, ""); }
+#elif !defined(SSW_NO_ERR_STUBS)
 void err_msg(err_lvl_t lvl, const char *path, long ln, const char *fmt, ...)
 { (void)lvl; (void)path; (void)ln; (void)fmt; }
 void err_msg_system(err_lvl_t lvl, const char *path, long ln, const char *fmt, ...)
